@@ -35,6 +35,7 @@ KN_G = "C21-line-g-halved"
 KN_MPC = "C21-mpc-drops-branch-g"
 KN_NAN = "C21-trafo-rate-nan"
 KN_ONE = "C21-mpc-single-branch"
+KN_IMPNAN = "C21-impedance-rate-nan"   # NaN RATE_A on a branch that from_ppc converts to an impedance (from_ppc.py:303); repaired: a recurrence is a violation
 RUNKW = dict(trafo_model="pi", calculate_voltage_angles=True, tolerance_mva=1e-8, numba=False)
 
 
@@ -146,10 +147,11 @@ def _from_ppc_terms(ppc, brg, f_hz):
         r, x, b_, tap, shift, rate, g = (float(br[BR_R]), float(br[BR_X]), float(br[BR_B]), float(br[TAP]), float(br[SHIFT]), float(br[RATE_A]), float(brg[k]))
         zk = math.sqrt(r * r + x * x)
         ym = math.sqrt(b_ * b_ + g * g)
-        terms.append("OL [run_which %s %s %s %s; run_from_line %s %s %s %s; run_from_trafo %s %s %s %s %s %s %s %s %s %s %s %s]" % (
+        terms.append("OL [run_which %s %s %s %s; run_from_line %s %s %s %s; run_from_trafo %s %s %s %s %s %s %s %s %s %s %s %s; run_from_impedance %s %s %s %s %s %s]" % (
             Q(fvn), Q(tvn), Q(tap), Q(shift),
             Q(pif), Q(S), Q(tvn), _lrow_term(r, x, b_, g),
-            Q(S), Q(fvn), Q(tvn), Q(zk), Q(ym), Q(r), Q(x), Q(b_), Q(g), Q(tap), Q(shift), cq.oq(rate, 40)))
+            Q(S), Q(fvn), Q(tvn), Q(zk), Q(ym), Q(r), Q(x), Q(b_), Q(g), Q(tap), Q(shift), cq.oq(rate, 40),
+            Q(S), Q(r), Q(x), Q(b_), Q(g), cq.oq(rate, 40)))
     return terms
 
 
@@ -211,7 +213,7 @@ def _cmp_from_ppc(ctx, ppc, net, model, case, tag):
     for k in range(ppc["branch"].shape[0]):
         ctx.corr_checked += 1
         n += 1
-        mw, ml, mt = model[nb + 1 + k]
+        mw, ml, mt, mi = model[nb + 1 + k]
         code, et, el = obs[nb + 1 + k]
         ctx.count("%s_branch_as_%s" % (tag, et))
         if mw != code:
@@ -231,6 +233,17 @@ def _cmp_from_ppc(ctx, ppc, net, model, case, tag):
                 ctx.disagreement("%s branch %d -> trafo: model %s impl %s swapped %s" % (tag, k, _fl(mt), impl, swapped), case)
             if mt[1]:
                 ctx.count("%s_trafo_swapped" % tag)
+        elif et == "impedance":
+            # sn_mva (zero or NaN rating -> MAX_VAL, repaired in /repo) and the per-unit values on that base
+            r = net.impedance.loc[el]
+            impl = [float(r.sn_mva), float(r.rft_pu), float(r.xft_pu), float(r.bf_pu), float(r.gf_pu)]
+            if not _close(mi, impl):
+                ctx.disagreement("%s branch %d -> impedance: model %s impl %s" % (tag, k, _fl(mi), impl), case)
+            sym = [float(r.rtf_pu), float(r.xtf_pu), float(r.bt_pu), float(r.gt_pu)]
+            if not _close(mi[1:], sym):
+                ctx.disagreement("%s branch %d -> impedance is not symmetric: model %s impl to-side %s" % (tag, k, _fl(mi[1:]), sym), case)
+            if mi[0] is None:
+                ctx.count("%s_impedance_with_nan_rating" % tag)
     return n
 
 
@@ -376,8 +389,26 @@ def _guards(net, ppc):
             fvn, tvn = bus[int(br[F_BUS]), BASE_KV], bus[int(br[T_BUS]), BASE_KV]
             if brg[k] != 0 and fvn == tvn and br[TAP] in (0.0, 1.0) and br[SHIFT] == 0:
                 g_line = True
-    nan_rate = bool(np.any(np.isnan(ppc["branch"][:, RATE_A])))
-    return g_line, g_any, nan_rate
+    # NaN ratings, split by the class from_ppc gives the branch (_branch_to_which): impedance = different base voltages,
+    # tap 0/1, no shift (guard of C21-impedance-rate-nan); everything else is the repaired line/trafo path
+    nan_imp = nan_other = False
+    for br in ppc["branch"]:
+        if np.isnan(br[RATE_A]):
+            fvn, tvn = bus[int(br[F_BUS]), BASE_KV], bus[int(br[T_BUS]), BASE_KV]
+            if fvn != tvn and br[TAP] in (0.0, 1.0) and br[SHIFT] == 0:
+                nan_imp = True
+            else:
+                nan_other = True
+    return g_line, g_any, _NanRate(nan_other, nan_imp)
+
+
+class _NanRate:
+    """truthy iff a NaN rating exists outside the impedance class (the old meaning of nan_rate); .imp = the impedance class"""
+    def __init__(self, other, imp):
+        self.other, self.imp = other, imp
+
+    def __bool__(self):
+        return self.other
 
 
 def _to_ppc_stage(ctx, net, ppc, case):
@@ -630,6 +661,36 @@ def _mat2ppc_2d(fn):
     return ppc
 
 
+def _undo_imp_nan_passes(net, ppc, lk, mpc, matfile, okw):
+    """replace the NaN RATE_A of impedance-class branches (and only those) by the transformer's own rating, convert again,
+    solve, compare: True iff the round trip is exact then"""
+    try:
+        p2 = _mat2ppc_2d(matfile) if mpc else copy.deepcopy(ppc)
+        p2 = {k_: v for k_, v in p2.items() if k_ in ("baseMVA", "version", "bus", "gen", "branch", "branch_g")}
+        p2["branch"] = np.array(p2["branch"], dtype=float)
+        bus = ppc["bus"]
+        bis = ppc["internal"]["branch_is"]
+        posi = np.cumsum(bis) - 1
+        f, t = net._pd2ppc_lookups["branch"]["trafo"]
+        changed = 0
+        for j, ti in enumerate(net.trafo.index):
+            if not bis[f + j]:
+                continue
+            row = p2["branch"][posi[f + j]]
+            ref = ppc["branch"][posi[f + j]]
+            fvn, tvn = bus[int(ref[F_BUS]), BASE_KV], bus[int(ref[T_BUS]), BASE_KV]
+            if np.isnan(row[RATE_A]) and fvn != tvn and ref[TAP] in (0.0, 1.0) and ref[SHIFT] == 0:
+                row[RATE_A] = net.trafo.sn_mva.at[ti] * net.trafo.df.at[ti] * net.trafo.parallel.at[ti]
+                changed += 1
+        if not changed:
+            return False
+        n4 = from_ppc(p2, f_hz=net.f_hz)
+        _run_conv(n4)
+        return not _compare_pf(net, n4, lk, opf="mode" in (okw or {}))
+    except Exception:
+        return False
+
+
 def _classify(net, ppc, n2c, lk, g_line, nan_rate, mpc, g_any=False, matfile=None, okw=None):
     """a failure is a recorded finding only if its guard fails on this input AND undoing exactly that defect makes the
     round trip pass; otherwise it is 'spec'"""
@@ -646,6 +707,9 @@ def _classify(net, ppc, n2c, lk, g_line, nan_rate, mpc, g_any=False, matfile=Non
             applicable.append(KN_G)
         if nan_rate:
             applicable.append(KN_NAN)
+    if getattr(nan_rate, "imp", False) and _undo_imp_nan_passes(net, ppc, lk, mpc, matfile, okw):
+        # undoing exactly this defect (and nothing else) makes the round trip exact
+        return [KN_IMPNAN]
     if not applicable:
         return ["spec"]
     try:
@@ -668,8 +732,7 @@ def _classify(net, ppc, n2c, lk, g_line, nan_rate, mpc, g_any=False, matfile=Non
                 if bis[f + j] and np.isnan(p2["branch"][posi[f + j], RATE_A]):
                     p2["branch"][posi[f + j], RATE_A] = net.trafo.sn_mva.at[ti] * net.trafo.df.at[ti] * net.trafo.parallel.at[ti]
         n4 = from_ppc(p2, f_hz=net.f_hz)
-        if len(n4.line):
-            n4.line["g_us_per_km"] = n4.line.g_us_per_km.values * 2            # undo the halving
+        # (the halving of the line conductance is repaired in /repo: nothing to undo for KN_G any more)
         _run_conv(n4)
         if _compare_pf(net, n4, lk, opf="mode" in (okw or {})):
             return ["spec"]
@@ -717,6 +780,19 @@ def _corpus_nets():
     pp.create_line_from_parameters(net, b[0], b[1], 1.0, 0.1, 0.1, 10, 1)
     pp.create_load(net, b[1], 1.0, 0.5)
     out.append((net, {"single_branch"}))
+    # 5: a transformer at nominal ratio without phase shift becomes an impedance; without max_loading_percent its RATE_A is NaN
+    #    (C21-impedance-rate-nan, from_ppc.py:303, repaired in /repo: regression witness, must pass)
+    net = pp.create_empty_network()
+    b0 = pp.create_bus(net, 110.0)
+    b1 = pp.create_bus(net, 20.0)
+    b2 = pp.create_bus(net, 20.0)
+    pp.create_ext_grid(net, b0)
+    for kw in ({"max_loading_percent": 100.0}, {}):
+        pp.create_transformer_from_parameters(net, b0, b1, sn_mva=25.0, vn_hv_kv=110.0, vn_lv_kv=20.0, vkr_percent=0.25, vk_percent=8.0,
+                                              pfe_kw=14.0, i0_percent=0.1, shift_degree=0.0, **kw)
+    pp.create_line_from_parameters(net, b1, b2, 1.0, 0.1, 0.1, 10, 1)
+    pp.create_load(net, b2, 2.0, 0.5)
+    out.append((net, {"trafo", "ml_nan", "impedance_class"}))
     return out
 
 
@@ -724,8 +800,10 @@ def _corpus_nets():
 def run(ctx):
     rng = ctx.rng
     stage_a, stage_b = [], []
+    import random as _random
     for k, (net, feat) in enumerate(_corpus_nets()):
-        r = _full_case(ctx, rng, 100000 + k, net=net, feat=feat)
+        # witnesses added later draw from their own stream, so that the generated cases of a seed do not move
+        r = _full_case(ctx, rng if k < 4 else _random.Random(k), 100000 + k, net=net, feat=feat)
         ctx.count("corpus_cases")
         if r:
             stage_a.append(r[0])
